@@ -136,6 +136,7 @@ Definition wake_grant (s : db) (k : N) (r : ref) (via : option N) : db * list ev
   let l := getl s r in
   let c := l_cmd l in
   let before := m_locked (getm s k) in
+  let cc := cur_count s k in
   if has (c_tflag c) TF_REQUIRE_ACKED && negb (l_isaof l) && negb (l_aoftime l =? 255) && negb (has (c_flag c) LOCK_FLAG_FROM_AOF) then
     let s := add_lock s k r in
     let s := updm s k (fun m => m <| m_locked := add32 (m_locked m) 1 |>) in
@@ -143,7 +144,7 @@ Definition wake_grant (s : db) (k : N) (r : ref) (via : option N) : db * list ev
     let '(s, pev) := if has_data_flag c then process_data s k r c true else (s, []) in
     let '(s, aev) := push_lock_aof s k r 0 in
     let s := bump (fun n => n <| n_lock := (n_lock n + 1)%Z |> <| n_locked := (n_locked n + 1)%Z |> <| n_wait := (n_wait n - 1)%Z |>) s in
-    (s, [EGrant k r true before] ++ pev ++ aev)
+    (s, [EGrant k r true before cc (c_count c)] ++ pev ++ aev)
   else
     let s := updl s r (fun l => l <| l_timeouted := true |>) in
     let s := if l_long l then remove_long_timeout s r else s in
@@ -156,7 +157,7 @@ Definition wake_grant (s : db) (k : N) (r : ref) (via : option N) : db * list ev
       let '(s, aev) := add_expried s k r in
       let s := updl s r (fun l => l <| l_refc := add8 (l_refc l) 1 |>) in
       let s := bump (fun n => n <| n_lock := (n_lock n + 1)%Z |> <| n_locked := (n_locked n + 1)%Z |> <| n_wait := (n_wait n - 1)%Z |>) s in
-      (s, [EGrant k r true before] ++ pev ++ aev
+      (s, [EGrant k r true before cc (c_count c)] ++ pev ++ aev
           ++ [reply (l_conn l) c R_SUCCED (m_locked (getm s k)) (l_locked (getl s r)) ldata])
     else
       let ldata := data_of s k in
